@@ -88,6 +88,16 @@ CLAIMED = {
             "Deserialize agree on key->field and tag->variant and serialise every field unconditionally, and "
             "Default::default stores exactly the documented constants. The toml crate's own behaviour is not "
             "decided.", "4/C19"),
+    "C08": ("EFFECT: bit-effect inference over the structured MIR of every BitRepr::write (loops summarised by "
+            "induction-variable recognition, closures/scratch sinks inlined) compared as a normalised polynomial / "
+            "case tree with the value returned by count_bits; TABLE for extra-bit writers; dataflow identities for "
+            "the cached sums and the precomputed bitstream",
+            "For 12 BitRepr impls the inferred number of bits `write` appends on every Ok path equals the symbolic "
+            "value of `count_bits`; for Residual the writer's loop nest is matched structurally and count_bits is "
+            "its closed form over cached sums that the constructor computes from the stored vectors; UTF-8-like "
+            "number length, per-variant extra bits, whole-byte frames, and the precomputed-bitstream cache "
+            "(stored bytes = own serialisation, no mutation after precompute) are decided too. The data identity "
+            "of the cached quotient sum and the sinks' own behaviour (C11) are not decided.", "4/C08"),
 }
 
 NA = {
